@@ -29,7 +29,7 @@
                                    run_feature_group / add_feature_group_step      mk_step, steps_of_group, raw_plan
                                    add_joinstep / add_tfs                          add nothing in the fragment: tfs_needed
                                    _validate_required_uuids_are_produced           validate_A
-                                   _validate_steps_do_not_wait_in_a_cycle          runsim, runsim_accepts   (/repo 12fe10c)
+                                   _validate_steps_do_not_wait_in_a_cycle          runsim, runsim_accepts   (/repo 12fe10c, 7287741)
    step.uuid is uuid4(): the model numbers the steps by their position in the plan (the exporter does the same).
 
    Python sets and dicts are lists in insertion order.  Every place where the code ITERATES a set whose order can reach
@@ -231,18 +231,18 @@ Definition tfs_needed (g : fgraph) (cl : amap) (s : step) : bool :=
 (* _validate_required_uuids_are_produced: every required uuid is produced by some step *)
 Definition validate_A (p : plan) : bool := forallb (fun s => subset (req s) (all_uuids p)) p.
 
-(* _validate_steps_do_not_wait_in_a_cycle (called at the end of _validate_required_uuids_are_produced since 12fe10c):
+(* _validate_steps_do_not_wait_in_a_cycle (called at the end of _validate_required_uuids_are_produced; /repo 12fe10c, start
+   condition as of 7287741):
      finished = set(); remaining = list(plan); progress = True
      while remaining and progress:
-         ready = [step for step in remaining if set(step.required_uuids) - step.get_uuids() <= finished]
+         ready = [step for step in remaining if set(step.required_uuids) <= finished]
          progress = bool(ready)
          for step in ready: finished.update(step.get_uuids())
          remaining = [step for step in remaining if id(step) not in ready_ids]
      if remaining: raise ValueError("... wait for each other in a cycle ...")
-   NOTE the code subtracts the step's OWN uuids from its requirements; ExecutionOrchestrator._can_run_step does not
-   (Model/Orch.v visit: subset (req s) finished).  runsim returns the steps left over; fuel = number of steps (every round
-   with progress removes at least one step). *)
-Definition runsim_ready (finished : list nat) (s : step) : bool := subset (remove_all (uuids s) (req s)) finished.
+   The start condition is exactly ExecutionOrchestrator._can_run_step's (Model/Orch.v visit: subset (req s) finished).
+   runsim returns the steps left over; fuel = number of steps (every round with progress removes at least one step). *)
+Definition runsim_ready (finished : list nat) (s : step) : bool := subset (req s) finished.
 Fixpoint runsim (fuel : nat) (remaining : plan) (finished : list nat) : plan :=
   match fuel with
   | 0 => remaining
@@ -258,8 +258,8 @@ Fixpoint runsim (fuel : nat) (remaining : plan) (finished : list nat) : plan :=
   end.
 Definition runsim_accepts (p : plan) : bool := match runsim (List.length p) p [] with [] => true | _ :: _ => false end.
 
-(* the structural part of wf_plan (everything except the order) and the side condition under which the simulation and
-   the orchestrator agree: no step requires one of its own uuids *)
+(* the structural part of wf_plan (everything except the order); no_self_req: no step requires one of its own uuids (a
+   consequence of well-formedness; before 7287741 it was a side condition of the validation's soundness) *)
 Definition wf_struct (p : plan) : bool :=
   forallb (fun s => match uuids s with [] => false | _ => true end) p
   && nodupb (map sid p) && nodupb (all_uuids p)
